@@ -195,7 +195,7 @@ type Worker struct {
 	Dump  string // directory to dump queries into, "" = none
 }
 
-func NewWorker() *Worker { return &Worker{procs: map[string]*proc{}} }
+func NewWorker() *Worker { return &Worker{procs: map[string]*proc{}, Dump: os.Getenv("BMSYM_DUMP")} }
 
 func (w *Worker) Close() {
 	for _, p := range w.procs {
@@ -219,13 +219,14 @@ func (w *Worker) get(kind string) (*proc, error) {
 }
 
 // Script renders the query body (declarations + assertions).
-func (q *Query) Script() string {
+func (q *Query) Script() (string, []string) {
 	all := append([]*Term{}, q.Asserts...)
 	all = append(all, q.Values...)
-	return Decls(all...) + PrintAsserts(q.Asserts)
+	body, vnames := PrintAsserts(q.Asserts, q.Values...)
+	return Decls(all...) + body, vnames
 }
 
-func (w *Worker) attempt(kind string, q *Query, script string, timeout time.Duration) Result {
+func (w *Worker) attempt(kind string, q *Query, script string, vnames []string, timeout time.Duration) Result {
 	start := time.Now()
 	res := Result{Solver: kind}
 	p, err := w.get(kind)
@@ -291,11 +292,11 @@ func (w *Worker) attempt(kind string, q *Query, script string, timeout time.Dura
 		w.pmu.Unlock()
 		var vb strings.Builder
 		vb.WriteString("(get-value (")
-		for i, v := range q.Values {
+		for i, v := range vnames {
 			if i > 0 {
 				vb.WriteByte(' ')
 			}
-			v.write(&vb, nil)
+			vb.WriteString(v)
 		}
 		fmt.Fprintf(&vb, "))\n(echo \"%s\")\n", mark2)
 		io.WriteString(p.in, vb.String())
@@ -332,7 +333,7 @@ func (w *Worker) Check(q *Query) Result {
 	if timeout == 0 {
 		timeout = 10 * time.Second
 	}
-	script := q.Script()
+	script, vnames := q.Script()
 	if w.Dump != "" {
 		os.WriteFile(fmt.Sprintf("%s/%s.smt2", w.Dump, strings.ReplaceAll(q.Name, "/", "_")), []byte(script+"(check-sat)\n"), 0o644)
 	}
@@ -351,7 +352,7 @@ func (w *Worker) Check(q *Query) Result {
 	}
 	ch := make(chan ans, len(kinds))
 	for _, k := range kinds {
-		go func(k string) { ch <- ans{w.attempt(k, q, script, timeout), k} }(k)
+		go func(k string) { ch <- ans{w.attempt(k, q, script, vnames, timeout), k} }(k)
 	}
 	got := 0
 	decided := false
